@@ -233,7 +233,7 @@ def c01(tier, seed):
                         prop["sleepMs"] = 90
                         tag["cutAt"] = prop["sleepAt"]
                     out.append(scenario("c01-%s-%d-%d-%s-%d" % (tn, sd, checks, st, len(out)), prop, fl, tag=tag))
-    return out
+    return out + random_scripts("c01", tier, seed, 50, 1500)
 
 
 # ---------------------------------------------------------------------------
@@ -339,7 +339,7 @@ def c02(tier, seed):
                 out.append(scenario("c02-once-%s-%s-%d" % (kind, variant, rep), {"body": flaky},
                                     {"checks": 5, "seed": rng.randrange(1, 1 << 64), "shrinktime": "0s"}, runs=runs, name="TestOnce",
                                     tag={"kind": kind, "ctx": "first execution only", "pos": variant}))
-    return out
+    return out + random_scripts("c02", tier, seed, 60, 2000, flags={"nofailfile": "true"}, tag={"kind": "random", "ctx": "random", "pos": "random"})
 
 
 # ---------------------------------------------------------------------------
@@ -383,7 +383,7 @@ def c11(tier, seed):
         default = BEHAVIOURS["XC"] + BEHAVIOURS["AL"] if ("XC" in sq or "AL" in sq or "CS" in sq) else [draw(g("Bool"), "d")]
         out.append(scenario("c11-%s-%d" % ("_".join(sq), i), {"keyed": True, "cases": cases, "default": default}, fl,
                             tag={"seq": list(sq)}))
-    return out
+    return out + random_scripts("c11", tier, seed, 50, 1500, flags={"shrinktime": "0s"})
 
 
 # ---------------------------------------------------------------------------
@@ -532,7 +532,7 @@ def c05(tier, seed):
                 prop["sleepAt"] = rng.randrange(1, 60)
                 prop["sleepMs"] = 90
             out.append(scenario("c05-%s-%d-%s" % (tn, i, st), prop, fl, tag=tag))
-    return out
+    return out + random_scripts("c05", tier, seed, 40, 1200, flags={"nofailfile": "true", "checks": 100}, tag={"template": "random", "shrink": "mixed"})
 
 
 # ---------------------------------------------------------------------------
@@ -614,7 +614,7 @@ def c10(tier, seed):
         fz = ["", "00" * 8, "ff" * 24, "%016x" % rng.randrange(1 << 64) * 6, "01" * 37]
         out.append(scenario("c10-fuzz-%d" % i, {"body": c10_body(rng) + ENDINGS["nonfatal"]}, {}, runs=[{"fuzz": fz}], entry="fuzz",
                             tag={"ending": "nonfatal", "entry": "fuzz"}))
-    return out
+    return out + random_scripts("c10", tier, seed, 40, 1200, tag={"ending": "random"})
 
 
 # ---------------------------------------------------------------------------
@@ -680,7 +680,7 @@ def c08(tier, seed):
         body = [op("setvar", var=v, val="0") for v in ("n", "f", "e", "i")] + [{"op": "repeat", "actions": actions, "inv": [op("incvar", var="i")]}]
         fz = ["", "00" * 64, "ff" * 64, "%016x" % rng.randrange(1 << 64) * 20, "80" * 100, "7f" * 333]
         out.append(scenario("c08-fuzz-%d" % i, {"body": body}, {"steps": 5}, runs=[{"fuzz": fz}], entry="fuzz", tag={"entry": "fuzz"}))
-    return out
+    return out + random_scripts("c08", tier, seed, 40, 1200, goroutines=False, tag={"actions": ["random"], "inv": True})
 
 
 # ---------------------------------------------------------------------------
@@ -956,4 +956,125 @@ def c13(tier, seed):
                 runs.append({"entry": "check", "failfileFuzz": jf, "flags": {"checks": "3", "seed": "5", "nofailfile": "true", "shrinktime": "0s"}})
             out.append(scenario("c13-%s-%d" % (pn, rep), {"body": props[pn]()}, {"steps": rng.choice([2, 30])}, runs=runs, entry="fuzz",
                                 tag={"prop": pn, "rel": rel, "inputs": len(inputs)}))
+    return out
+
+
+# ---------------------------------------------------------------------------
+# Random scripts: seeded random combinations of the whole op vocabulary (beyond the fixed templates).  Every script is
+# deterministic in its draws: conditions only look at values drawn in the same invocation (or the same Custom call).
+
+SIGNALS_NF = [("errorf", {}), ("error", {}), ("fail", {}), ("error0", {})]
+SIGNALS_FATAL = [("fatalf", {}), ("fatal", {}), ("failnow", {}), ("panic", {"val": "string"}), ("panic", {"val": "error"}), ("panic", {"val": "struct"}),
+                 ("rterr", {"val": "index"}), ("rterr", {"val": "nilmap"}), ("rterr", {"val": "div"})]
+
+
+def _sig(rng, fatal_ok=True, panics_ok=True):
+    pool = list(SIGNALS_NF)
+    if fatal_ok:
+        pool += [s for s in SIGNALS_FATAL if panics_ok or s[0] not in ("panic", "rterr")]
+    k, extra = rng.choice(pool)
+    d = {"op": k, "site": rng.randrange(0, 4)}
+    d.update(extra)
+    if k == "error0":
+        d = {"op": "error0"}
+    return d
+
+
+def _small_gen(rng):
+    return rng.choice([IntRange(0, 100), g("Int8"), g("Uint16"), g("Bool"), g("SliceOfN", elem=g("Byte"), minLen=0, maxLen=3),
+                       g("SliceOfDistinct", elem=IntRange(0, 2)), g("StringN", minLen=0, maxLen=3, maxBytes=-1), g("SampledFrom", items=["1", "2", "3"]),
+                       g("Filter", elem=IntRange(0, 50), pred="even"), g("MapOfN", key=IntRange(0, 2), val=g("Bool"), minLen=0, maxLen=3), g("Float64"),
+                       g("OneOf", gens=[g("Int8"), IntRange(5, 6)]), g("Make", type="mapboolint"), g("StringMatching", expr="[a-c]\\b.|x+")])
+
+
+def _cond(rng, var, then, els=None):
+    return iff(var, rng.choice(["ge", "le"]), rng.choice([5, 30, 50, 70, 95]), then, els)
+
+
+def _cleanup_body(rng, var, allow_skip, panics_ok):
+    kinds = ["ctx", "errorf", "reg", "nil", "plain", "fatal"] + (["skip"] if allow_skip else [])
+    k = rng.choice(kinds)
+    if k == "ctx":
+        return [op("ctx", text="in-cleanup")]
+    if k == "errorf":
+        return [_cond(rng, var, [_sig(rng, fatal_ok=False)])]
+    if k == "reg":
+        return [op("cleanup", body=[op("ctx", text="in-cleanup")]), op("ctx", text="in-cleanup")]
+    if k == "nil":
+        return [op("cleanupnil")]
+    if k == "fatal":
+        return [_cond(rng, var, [_sig(rng, fatal_ok=True, panics_ok=panics_ok)])]
+    if k == "skip":
+        return [_cond(rng, var, [op("skip")])]
+    return [op("log", text="cleanup")]
+
+
+def random_body(rng, goroutines=True, machines=True):
+    """a random scripted property; the first draw is an integer 'x' in 0..100 that the conditions look at"""
+    panics_ok = rng.random() < 0.6          # (a script either may panic outside *T, or may skip from a cleanup: the combination is the known finding)
+    allow_cleanup_skip = not panics_ok
+    body = [draw(IntRange(0, 100), "x", "x")]
+    n = rng.randrange(2, 8)
+    for _ in range(n):
+        r = rng.random()
+        if r < 0.2:
+            body.append(draw(_small_gen(rng), "v%d" % len(body)))
+        elif r < 0.35:
+            body.append(_cond(rng, "x", [_sig(rng, panics_ok=panics_ok)]))
+        elif r < 0.45:
+            body.append(_cond(rng, "x", [op("skip")]))
+        elif r < 0.6:
+            body.append(op("cleanup", body=_cleanup_body(rng, "x", allow_cleanup_skip, panics_ok)))
+        elif r < 0.68:
+            body.append(op(rng.choice(["ctx", "ctxlive"]), text="body"))
+        elif r < 0.8:
+            cb = [draw(IntRange(0, 100), "a", "a")]
+            for _ in range(rng.randrange(0, 3)):
+                cb.append(rng.choice([_cond(rng, "a", [op("skip")]), _cond(rng, "a", [_sig(rng, fatal_ok=rng.random() < 0.3, panics_ok=panics_ok)]),
+                                      op("cleanup", body=_cleanup_body(rng, "a", False, panics_ok)), op("ctx", text="custom")]))
+            body.append(draw(g("Custom", elem=_small_gen(rng), body=cb, fresh=rng.random() < 0.5), "c%d" % len(body)))
+        elif r < 0.9 and machines:
+            acts = {}
+            for j in range(rng.randrange(1, 4)):
+                kind = rng.choice(["ok", "skipafter", "skipbefore", "sig", "cleanup"])
+                if kind == "ok":
+                    acts["a%d" % j] = [draw(g("Bool"), "b"), op("incvar", var="n")]
+                elif kind == "skipafter":
+                    acts["a%d" % j] = [draw(IntRange(0, 9), "r", "r"), iff("r", "ge", 5, [op("skip")]), op("incvar", var="n")]
+                elif kind == "skipbefore":
+                    acts["a%d" % j] = [iff("n", "ge", 2, [op("skip")]), draw(g("Byte"), "q")]
+                elif kind == "sig":
+                    acts["a%d" % j] = [draw(IntRange(0, 100), "y", "y"), _cond(rng, "y", [_sig(rng, panics_ok=panics_ok)])]
+                else:
+                    acts["a%d" % j] = [op("cleanup", body=[op("ctx", text="in-cleanup")]), draw(g("Bool"), "w")]
+            rep = {"op": "repeat", "actions": acts}
+            if rng.random() < 0.5:
+                rep["inv"] = [op("incvar", var="i"), iff("i", "ge", rng.randrange(2, 9), [_sig(rng, panics_ok=panics_ok)])]
+            body.insert(1, op("setvar", var="n", val="0"))
+            body.insert(1, op("setvar", var="i", val="0"))
+            body.append(rep)
+        elif goroutines:
+            gb = [rng.choice([op("ctx", text="g"), op("failed"), op("cleanup", body=[]), op("helper"), op("name")])]
+            if rng.random() < 0.4:
+                gb.append(_cond(rng, "x", [_sig(rng, fatal_ok=False)]))
+            body.append(op("go", n=rng.randrange(1, 4), body=gb))
+        else:
+            body.append(op("log", text="x"))
+    if rng.random() < 0.5:
+        body.append(_cond(rng, "x", [_sig(rng, panics_ok=panics_ok)]))
+    return body
+
+
+def random_scripts(prefix, tier, seed, n_quick, n_thorough, flags=None, goroutines=True, machines=True, tag=None, runs=None):
+    rng = random.Random(seed * 7919 + len(prefix))
+    out = []
+    for i in range(n_quick if tier == "quick" else n_thorough):
+        fl = {"checks": rng.choice([5, 30, 100]), "seed": rng.randrange(1, 1 << 64), "nofailfile": rng.choice(["true", "true", "false"]),
+              "shrinktime": rng.choice(["0s", "100ms", "30s"]), "steps": rng.choice([3, 10])}
+        if flags:
+            fl.update(flags)
+        t = {"random_script": True}
+        if tag:
+            t.update(tag)
+        out.append(scenario("%s-rnd-%d" % (prefix, i), {"body": random_body(rng, goroutines, machines)}, fl, tag=t, runs=runs))
     return out
